@@ -242,6 +242,8 @@ def guarded_wrap(ent, P, B, ndim):
 def _other_reads(rr) -> bool:
     """anything besides plain readline() calls that could consume lines of the handle on this path"""
     counted = set(rr.header_ids) | set(rr.atom_ids)
+    if getattr(rr, "comp_reads", None):
+        return True         # lines consumed per element of a comprehension: the line-by-line model does not count them
     for ev in rr.it.events:
         for v in ev.data.values():
             if not isinstance(v, tuple):
